@@ -1,27 +1,28 @@
 (** C01 - Forward iteration yields exactly the primes >= start, in order. *)
 From Coq Require Import NArith List.
-From PS Require Import Spec.Primes Spec.Cursor Model.Iterator Proofs.IteratorP Proofs.CursorP Proofs.IteratorCor.
+From PS Require Import Spec.Primes Spec.Cursor Model.Iterator Model.PrimeGen Proofs.IteratorP Proofs.CursorP Proofs.PrimeGenP Proofs.IteratorCor.
 Import ListNotations.
 Local Open Scope N_scope.
 
 (** k calls of next_prime on an iterator positioned at s (any stop_hint h, any
     heuristics, any block layout) return the first k primes >= s that are
-    < 2^64, ascending, and afterwards an error on every call.  [kernel_spec]
-    (the sieve yields exactly the primes of a chunk) is the visible
-    hypothesis of this theorem. *)
+    < 2^64, ascending, and afterwards an error on every call.  The generator is the
+    PrimeGenerator model: cached-prime tables (proved from the source tables)
+    plus the sieve proper above 720, whose exactness [erat_spec] is the
+    visible hypothesis of this theorem (kernel theorem, see DESIGN 2.2). *)
 Theorem C01_next_calls_spec :
-  forall nextDist prevDist maxGap kernel cut, kernel_spec kernel -> cut_spec cut ->
+  forall nextDist prevDist maxGap erat cut, erat_spec erat -> cut_spec cut ->
   forall fuel s h k it' rs,
     s <= MAX64 ->
-    run nextDist prevDist maxGap kernel cut fuel (fresh_iter s h) (repeat Next k) = Done (it', rs) ->
+    run nextDist prevDist maxGap (pg_primes erat) cut fuel (fresh_iter s h) (repeat Next k) = Done (it', rs) ->
     let P := primes_between s MAX64 in
     rs = map Val (firstn k P) ++ repeat Err (k - length P).
-Proof. exact next_calls_spec. Qed.
+Proof. exact next_calls_spec_pg. Qed.
 Print Assumptions C01_next_calls_spec.
 
 Theorem C01_every_call_returns :
-  forall nextDist prevDist maxGap kernel cut, kernel_spec kernel -> cut_spec cut ->
+  forall nextDist prevDist maxGap erat cut, erat_spec erat -> cut_spec cut ->
   forall os it c, R it c -> Forall op_ok os ->
-    exists it' rs, run nextDist prevDist maxGap kernel cut enough_fuel it os = Done (it', rs).
-Proof. exact iterator_total. Qed.
+    exists it' rs, run nextDist prevDist maxGap (pg_primes erat) cut enough_fuel it os = Done (it', rs).
+Proof. exact iterator_total_pg. Qed.
 Print Assumptions C01_every_call_returns.
